@@ -123,7 +123,9 @@ func TestC01Reg_StaleQCAcrossRootBump(t *testing.T) {
 	pol := steer(6, 1, D, rest, func(e *bs.Env, to int) bool { return !bl.SuppressEngine(e) })
 	pol.After = bl.After
 	s.RunRound(pol)
-	pr := s.FindEnv(func(e *bs.Env) bool { return e.Kind == "PR" && e.Crafted && e.View.RootHeight == 6 && e.View.Round == 1 })
+	pr := s.FindEnv(func(e *bs.Env) bool {
+		return e.Kind == "PR" && e.Crafted && e.View.RootHeight == 6 && e.View.Round == 1
+	})
 	if pr == nil || pr.Msg.HighQc == nil || pr.Msg.HighQc.Header.RootHeight != 5 || pr.Msg.HighQc.Header.Round != 2 || !bytes.Equal(pr.Msg.Qc.BlockHash, Y) {
 		t.Fatalf("setup: D did not re-propose Y with the stale certificate: %s", s.Descriptor())
 	}
